@@ -186,6 +186,15 @@ struct Ex {
         o["var"] = VD->getNameAsString();
         o["rhs"] = VD->hasInit() ? exprText(Ctx, VD->getInit()) : std::string("");
         o["line"] = lineOf(SM, VD->getLocation());
+        o["vtype"] = VD->getType().getUnqualifiedType().getAsString();
+        if (VD->hasInit() && VD->getType()->isIntegerType()) {
+          // implicit narrowing: the initialiser (before implicit conversions) is a wider integer than the variable
+          QualType IT = VD->getInit()->IgnoreParenImpCasts()->getType();
+          if (!IT.isNull() && IT->isIntegerType() && !IT->isDependentType() && Ctx.getTypeSize(IT) > Ctx.getTypeSize(VD->getType())) {
+            o["narrow"] = true;
+            o["itype"] = IT.getUnqualifiedType().getAsString();
+          }
+        }
         return true;
       }
       // pointer locals initialised by a call (chunk addresses, raw regions): kept for the stale-pointer rule
